@@ -30,7 +30,9 @@ def _plain(x, depth=0):
         return ["set"] + sorted((_plain(v, depth + 1) for v in x), key=lambda v: json.dumps(v, sort_keys=True))
     tn = type(x).__name__
     if hasattr(x, '_value') and tn in ('Fixed', 'Guarded'):
-        return [tn[0], x._value]        # pylint: disable=protected-access
+        v = x._value                    # pylint: disable=protected-access
+        # a damaged value may hold anything (a tree under test once stored a Fixed inside a Fixed)
+        return [tn[0], v if isinstance(v, int) and not isinstance(v, bool) else _plain(v, depth + 1)]
     if hasattr(x, 'cid') and hasattr(x, 'state'):
         return ["C", x.cid]
     return ["?", tn, repr(x)[:200]]
@@ -38,7 +40,7 @@ def _plain(x, depth=0):
 
 def canon(action):
     "canonical JSON string of one action"
-    return json.dumps(_plain(action), sort_keys=True, ensure_ascii=True)
+    return json.dumps(_plain(action), sort_keys=True, ensure_ascii=True, default=repr)
 
 
 def canon_actions(record):
@@ -49,7 +51,15 @@ def canon_actions(record):
         acts = None
     if not isinstance(acts, list):
         return []
-    return [canon(a) for a in acts]
+    out = []
+    for a in acts:
+        try:
+            out.append(canon(a))
+        except Exception as e:      # pylint: disable=broad-except
+            # whatever a tree under test put into its record, the harness must not crash on it: an action that
+            # cannot be canonicalised compares equal to nothing the reference has
+            out.append(json.dumps(["uncanonical", type(e).__name__, repr(a)[:300]]))
+    return out
 
 
 def is_marker_action(a):
